@@ -1,0 +1,165 @@
+//! Verification hooks (only compiled with `--cfg biscuit_auth_verif`).
+//!
+//! Nothing here changes behaviour: events are appended to a thread-local
+//! buffer when recording is enabled, and the accessors only project internal
+//! state to plain data for the conformance harness in /verif.
+use std::cell::RefCell;
+
+use crate::datalog::{FactSet, SymbolTable};
+use crate::format::schema;
+use crate::{Authorizer, Biscuit, ThirdPartyBlock, UnverifiedBiscuit};
+
+thread_local! {
+    static EVENTS: RefCell<Option<Vec<String>>> = RefCell::new(None);
+}
+
+/// start (true) or stop (false) recording events on this thread
+pub fn record(on: bool) {
+    EVENTS.with(|e| *e.borrow_mut() = if on { Some(Vec::new()) } else { None });
+}
+
+pub fn enabled() -> bool {
+    EVENTS.with(|e| e.borrow().is_some())
+}
+
+pub fn emit(ev: String) {
+    EVENTS.with(|e| {
+        if let Some(v) = e.borrow_mut().as_mut() {
+            v.push(ev);
+        }
+    });
+}
+
+/// returns and clears the recorded events
+pub fn take() -> Vec<String> {
+    EVENTS.with(|e| match e.borrow_mut().as_mut() {
+        Some(v) => std::mem::take(v),
+        None => Vec::new(),
+    })
+}
+
+fn origin_ids(o: &crate::datalog::Origin) -> Vec<usize> {
+    o.inner.iter().cloned().collect()
+}
+
+/// (origin ids, printed fact) for every entry of a fact set
+pub fn factset(facts: &FactSet, symbols: &SymbolTable) -> Vec<(Vec<usize>, String)> {
+    facts
+        .iter_all()
+        .map(|(o, f)| (origin_ids(o), symbols.print_fact(f)))
+        .collect()
+}
+
+pub fn factset_json(facts: &FactSet, symbols: &SymbolTable) -> String {
+    let v: Vec<serde_json::Value> = factset(facts, symbols)
+        .into_iter()
+        .map(|(o, f)| serde_json::json!({"o": o, "f": f}))
+        .collect();
+    serde_json::Value::Array(v).to_string()
+}
+
+impl Authorizer {
+    /// facts of the world with their origin sets (usize::MAX = authorizer)
+    pub fn verif_facts(&self) -> Vec<(Vec<usize>, String)> {
+        factset(&self.world.facts, &self.symbols)
+    }
+
+    /// abstract state of the authorizer
+    pub fn verif_state(&self) -> serde_json::Value {
+        let facts: Vec<serde_json::Value> = self
+            .verif_facts()
+            .into_iter()
+            .map(|(o, f)| serde_json::json!({"o": o, "f": f}))
+            .collect();
+        let mut rules: Vec<serde_json::Value> = Vec::new();
+        for (trusted, rs) in self.world.rules.inner.iter() {
+            for (owner, r) in rs {
+                rules.push(serde_json::json!({
+                    "owner": owner,
+                    "trusted": trusted.verif_ids(),
+                    "rule": self.symbols.print_rule(r),
+                }));
+            }
+        }
+        let mut keymap: Vec<serde_json::Value> = Vec::new();
+        for (k, ids) in self.public_key_to_block_id.iter() {
+            let key = self
+                .symbols
+                .public_keys
+                .get_key(*k as u64)
+                .map(|k| k.print())
+                .unwrap_or_else(|| format!("<unknown key {k}>"));
+            keymap.push(serde_json::json!({"key": key, "blocks": ids}));
+        }
+        let block_checks: Vec<Vec<String>> = self
+            .blocks
+            .as_ref()
+            .map(|bs| {
+                bs.iter()
+                    .map(|b| b.checks.iter().map(|c| self.symbols.print_check(c)).collect())
+                    .collect()
+            })
+            .unwrap_or_default();
+        serde_json::json!({
+            "facts": facts,
+            "rules": rules,
+            "keymap": keymap,
+            "token_origins": self.token_origins.verif_ids(),
+            "block_checks": block_checks,
+            "authorizer_checks": self.authorizer_block_builder.checks.iter().map(|c| c.to_string()).collect::<Vec<_>>(),
+            "policies": self.policies.iter().map(|p| p.to_string()).collect::<Vec<_>>(),
+            "iterations": self.world.iterations,
+            "limits": {"max_facts": self.limits.max_facts, "max_iterations": self.limits.max_iterations,
+                       "max_time_us": self.limits.max_time.as_micros() as u64},
+            "ran": self.execution_time.is_some(),
+            "has_token": self.blocks.is_some(),
+        })
+    }
+}
+
+fn tables(symbols: &SymbolTable, authority: &schema::Block, blocks: &[schema::Block]) -> serde_json::Value {
+    let per_block: Vec<serde_json::Value> = std::iter::once(authority)
+        .chain(blocks.iter())
+        .map(|b| {
+            serde_json::json!({
+                "symbols": b.symbols,
+                "public_keys": b.public_keys.iter().map(|k| hex::encode(&k.key)).collect::<Vec<_>>(),
+            })
+        })
+        .collect();
+    serde_json::json!({
+        "symbols": symbols.strings(),
+        "public_keys": symbols.public_keys.keys.iter().map(|k| k.print()).collect::<Vec<_>>(),
+        "blocks": per_block,
+    })
+}
+
+impl Biscuit {
+    /// interning tables of the in-memory token
+    pub fn verif_tables(&self) -> serde_json::Value {
+        tables(&self.symbols, &self.authority, &self.blocks)
+    }
+}
+
+impl UnverifiedBiscuit {
+    /// interning tables of the in-memory token
+    pub fn verif_tables(&self) -> serde_json::Value {
+        tables(&self.symbols, &self.authority, &self.blocks)
+    }
+}
+
+impl ThirdPartyBlock {
+    /// a third-party response as received from the wire (the verified API only
+    /// accepts the in-process struct)
+    pub fn verif_from_bytes(slice: &[u8]) -> Result<Self, crate::error::Token> {
+        use prost::Message;
+        schema::ThirdPartyBlockContents::decode(slice)
+            .map(ThirdPartyBlock)
+            .map_err(|e| {
+                crate::error::Token::Format(crate::error::Format::DeserializationError(format!(
+                    "deserialization error: {:?}",
+                    e
+                )))
+            })
+    }
+}
